@@ -200,6 +200,7 @@ def run(rep, tier, root=None):
     # P3 batch clause for trailing-axes functions
     from . import c20_batch
     nb = c20_batch.check(rep, ix)
+    c20_batch.check_dispatch(rep, ix)
     rep.floor("P3 axis-bearing constructs", nb, 30)
     # module-level mutable containers written by functions were covered above; note RNG consumers
     rng_users = sorted(f.fq for f in ix.all_functions() if fx.summary(f).rng_global)
